@@ -281,6 +281,44 @@ def _sendq_job(job):
     return None
 
 
+def _fifo_retry_job(job):
+    """FIFO also holds for retransmissions: a request that times out while other sends are still waiting goes to the
+    BACK of the queue.  Oracle: the wire order equals the order of the queue_send calls (observed from outside)."""
+    T, N, nback, gap = job
+    lib.reset_library()
+    sock = GeckoUdpSocket()
+    w, e = _engine(sock)
+    sock.add_receive_handler(GeckoPacketProtocolHandler(socket=sock))
+    parms = (PEER[0], PEER[1], SPA_ID, b"IOSx")
+    calls = []
+    orig_q = sock.queue_send
+
+    def queue_send(handler, dest):
+        calls.append(unframe(handler.send_bytes)[2][:6])
+        return orig_q(handler, dest)
+
+    sock.queue_send = queue_send
+    t0 = w.now()
+    with stepped.patched_clock(w.clock):
+        h = GeckoVersionProtocolHandler.request(1, parms=parms)
+        h._timeout_in_seconds = T
+        h._retry_count = N
+        h._reset_timeout()
+        sock.add_receive_handler(h)
+        sock.queue_send(h, parms)
+    for i in range(nback):
+        hb = GeckoPacketProtocolHandler(content=b"BACK" + bytes([65 + i]) + b"!", parms=parms)
+        w.at(t0 + gap * (i + 1), (lambda hb=hb: sock.queue_send(hb, parms)))
+    w.run_until(t0 + (N + 2) * (T + 0.3) + nback * 0.05 + 2.0)
+    wire_ = [unframe(d)[2][:6] for (t, d, dest) in e.mock.sent]
+    if wire_ != calls:
+        return ("fifo", f"request T={T} N={N} with {nback} other sends queued {gap}s apart: wire order {[x[:5] for x in wire_]}, "
+                        f"queue_send calls were made in the order {[x[:5] for x in calls]}")
+    if lib.LOG.records:
+        return ("engine", f"errors: {lib.LOG.records[:2]}")
+    return None
+
+
 # ---- (4) handshake under loss --------------------------------------------------------------------
 STEPS = [b"AVERS", b"CURCH", b"SFILE", b"STATU"]
 
@@ -491,7 +529,13 @@ def run(ctx):
         if why:
             ctx.violation(f"C20|sendq|{why[0]}", why[1], {"mode": "sendq", "times": list(job[0]), "traffic": job[1],
                                                         "pattern": list(job[2]) if len(job) > 2 else None})
-    ctx.log(f"(3) send queue: {len(jobs)} enqueue patterns")
+    fjobs = [(T, N, nb, gap) for T in (0.03, 0.05, 0.12) for N in (1, 2) for nb in (1, 3, 6, 12) for gap in (0.0, 0.001, 0.01)]
+    for why, job in zip(core.pmap(ctx, _fifo_retry_job, fjobs, chunksize=4), fjobs):
+        trans += 1
+        states.add(("fifo-retry", job))
+        if why:
+            ctx.violation(f"C20|sendq|{why[0]}|retransmission", why[1], {"mode": "fifo-retry", "job": list(job)})
+    ctx.log(f"(3) send queue: {len(jobs)} enqueue patterns, {len(fjobs)} retransmission-vs-backlog cases")
     # (4)
     g = [0, 1, 2, 10] if ctx.quick else [0, 1, 2, 5, 9, 10]
     vecs = list(itertools.product(g, repeat=4))
@@ -543,6 +587,10 @@ def replay(ctx, data):
         n, bad = _dispatch_job((tuple(data["order"]), tuple(data["raiser"]), tuple(data.get("timed", []))))
         if bad:
             ctx.violation(f"C20|{bad[0]}|raiser={data['raiser'][1]}", bad[1], data)
+    elif m == "fifo-retry":
+        why = _fifo_retry_job(tuple(data["job"]))
+        if why:
+            ctx.violation(f"C20|sendq|{why[0]}|retransmission", why[1], data)
     elif m == "retry":
         why = _retry_job(tuple(data["job"]))
         if why:
